@@ -1,10 +1,10 @@
 package main
 
 import (
-	"os"
 	"fmt"
 	"go/token"
 	"go/types"
+	"os"
 	"sort"
 	"strings"
 
@@ -444,7 +444,7 @@ func c11Arch(c *Ctx, p *Prog) {
 				why := ""
 				switch x := i.(type) {
 				case *ssa.Store:
-					if !isLocalAddr(x.Addr) {
+					if !isLocalAddr(x.Addr) && !isFrameCapture(f, x.Addr) {
 						why = "store to shared memory"
 					}
 				case *ssa.MapUpdate:
